@@ -27,6 +27,9 @@ pub struct Step<S> {
     pub tags: Vec<String>,
     /// number of model-vs-implementation comparisons made on this transition
     pub validated: u64,
+    /// build-independent digest of what the transition did (events with chain-specific message
+    /// encodings abstracted away); 0 if the scenario does not compute one
+    pub digest: u64,
 }
 
 #[derive(Default)]
@@ -85,6 +88,14 @@ pub struct Report<A> {
     pub validated: u64,
     pub wall_s: f64,
     pub sample_paths: Vec<(String, Vec<A>)>,
+    /// order-independent accumulators (xor, wrapping sum) over state fingerprints and transition digests
+    pub state_acc: (u128, u128),
+    pub trans_acc: (u128, u128),
+}
+
+fn acc(a: &mut (u128, u128), x: u128) {
+    a.0 ^= x;
+    a.1 = a.1.wrapping_add(x);
 }
 
 struct Node {
@@ -111,12 +122,15 @@ pub fn explore<Sc: Scenario>(sc: &Sc, lim: &Limits, known_keys: &[String]) -> Re
         validated: 0,
         wall_s: 0.0,
         sample_paths: Vec::new(),
+        state_acc: (0, 0),
+        trans_acc: (0, 0),
     };
     let mut pending_viol: Vec<(Violation, u128, Option<Sc::A>)> = Vec::new();
     for (i, (_, s)) in seeds.iter().enumerate() {
         let f = fp(s);
         if !visited.contains_key(&f) {
             visited.insert(f, Node { parent: 0, act: u32::MAX, seed: i as u32 });
+            acc(&mut rep.state_acc, f);
             frontier.push((f, s.clone()));
         }
     }
@@ -158,6 +172,10 @@ pub fn explore<Sc: Scenario>(sc: &Sc, lim: &Limits, known_keys: &[String]) -> Re
                 for (a, st, f) in succs {
                     rep.transitions += 1;
                     rep.validated += st.validated;
+                    if st.digest != 0 {
+                        let t = fp(&(*pf, st.digest, f.unwrap_or(0)));
+                        acc(&mut rep.trans_acc, t);
+                    }
                     for t in st.tags {
                         *rep.tags.entry(t).or_insert(0) += 1;
                     }
@@ -173,6 +191,7 @@ pub fn explore<Sc: Scenario>(sc: &Sc, lim: &Limits, known_keys: &[String]) -> Re
                         if !visited.contains_key(&f) {
                             arena.push(a);
                             visited.insert(f, Node { parent: *pf, act: (arena.len() - 1) as u32, seed: 0 });
+                            acc(&mut rep.state_acc, f);
                             fresh.push((f, n));
                         }
                     }
